@@ -101,6 +101,7 @@ def build_scratch(prop, verbose=True, mutate=None):
     t0 = time.time()
     rewriter = ensure_simrewrite()
     base = os.environ.get("VERIF_TMP") or tempfile.gettempdir()
+    os.makedirs(base, exist_ok=True)
     d = tempfile.mkdtemp(prefix="j5verif.%s." % prop, dir=base)
     _scratch.append(d)
     tree = os.path.join(d, "tree")
